@@ -324,6 +324,7 @@ package obfs4
 //@   ensures [C18:generated_state_persisted] !crashed && err == nil ==> fexists(P) && file(P) == JSENC(js.NodeID, js.PrivateKey, js.PublicKey, js.DrbgSeed, js.IATMode) && js.IATMode == 0
 //@       && ISHEX(js.NodeID) && len(js.NodeID) == 40 && ISHEX(js.PrivateKey) && len(js.PrivateKey) == 64 && ISHEX(js.DrbgSeed) && len(js.DrbgSeed) == 48
 //@   ensures [C18:generation_never_overwrites_a_valid_state] !old(crashed) && old(fexists(P)) && JSVALID(old(file(P))) && crashed ==> true
+//@   ensures old(crashed) ==> crashed
 
 // Load the persisted state; generate a new identity ONLY when there is no state file at all.  An
 // existing file that does not decode makes start-up fail - it is never silently replaced.
